@@ -280,6 +280,16 @@ def serde_corpus(rng, tier):
         ops.append(f"sde picky {W.enc(t).hex()}")
     for x in ["05", "f5", "f4", "f6", "f7", "6161", "20", "3903e7", "80", "a0", "4101", "fa3f800000", "fb3ff0000000000000", "c105", "1bffffffffffffffff", "9fff", "8205f6", "82f505"]:
         ops.append(f"sde picky {x}"); ops.append(f"sde picky2 {x}")
+    # collect_seq / collect_map over iterators whose size hint is not tight: the same framing whether or not the bridge could buffer
+    for n in (0, 1, 2, 3, 8, 24, 47):
+        ops += [f"sser cseq {n}", f"sser cmap {min(n, 15)}", f"sser tup_cseq {n}"]
+    # containers nested past any round limit, and ONE deserializer asked again after failed attempts (a guard that counts must count back)
+    for dpt in (31, 32, 33, 34, 64, 65, 129, 300):
+        ops.append(f"sde any {'81' * dpt}05"); ops.append(f"sde ignored {'81' * dpt}05"); ops.append(f"sde any {'a100' * dpt}05")
+        ops.append(f"sde any {'9f' * dpt}05{'ff' * dpt}"); ops.append(f"sde picky {'81' * dpt}05")
+    for n in (1, 31, 32, 33, 40, 70, 300):
+        for bad in ("82058161", "820581", "8205", "82f5", "8205820101", "82058118ff"):
+            ops.append(f"sdereuse {n} {bad} 82058107")
     for v in (0, 9, 10, 255, 65536, 2**64 - 1):
         ops.append(f"sser shown {v}")
     # IgnoredAny (what a derived struct uses for unknown fields): skips one item whatever it is, in every configuration
